@@ -1,8 +1,13 @@
 -- Root of the MlVerif library: executable models (import-free), regenerated definitions,
 -- helper lemmas and one property file per property.  (written by harness/register.py)
 import MlVerif.Model.Proto
+import MlVerif.Properties.C02
+import MlVerif.Properties.C04
 import MlVerif.Properties.C05
 import MlVerif.Properties.C06
+import MlVerif.Properties.C07
+import MlVerif.Properties.C08
+import MlVerif.Properties.C09
 import MlVerif.Properties.C10
 import MlVerif.Properties.C11
 import MlVerif.Properties.C12
